@@ -425,7 +425,7 @@ class PteraTransformer(NodeTransformer):
 
     def _ann(self, ann):
         if isinstance(ann, ast.Str) and ann.s.startswith("@"):
-            tags = re.split(r" *& *", ann.s)
+            tags = re.split(r" *& *", ann.s.strip())
             ann = ast.copy_location(
                 ast.Call(
                     func=self._get("get_tags"),
